@@ -69,8 +69,19 @@ ShufflePart(d) ==
            Emit([op |-> "quant.data", dfmt |-> "rle", entry |-> Entries[ei], ty |-> Types[ti], data |-> data,
                  q |-> [n |-> qi, p |-> -5], conf |-> Conf(ki, li), li |-> li])
 
+\* seeded shuffles of DISTINCT values 0..n-1 (a selection algorithm that is only partially ordered shows here)
+IotaPart(d) ==
+  \A i \in 1..NSh :
+     LET n == 17 + ((i * 37) % 400)
+         seed == 1000 + i * 7919
+         qi == 1 + ((i * 11) % 31) IN
+     \A ki \in 1..3 : \A ei \in {1, 2, 4} :
+        Emit([op |-> "quant.data", dfmt |-> "iota", entry |-> Entries[ei], ty |-> Types[(i % 2) + 1],
+              data |-> [iota |-> n, order |-> <<"shuffle", seed>>],
+              q |-> [n |-> qi, p |-> -5], conf |-> Conf(ki, 12), li |-> 12])
+
 Next == /\ ~done
         /\ done' = TRUE
-        /\ CASE Part = "ranks" -> RanksPart(done) [] Part = "perm" -> PermPart(done) [] Part = "shuffle" -> ShufflePart(done)
+        /\ CASE Part = "ranks" -> RanksPart(done) [] Part = "perm" -> PermPart(done) [] Part = "shuffle" -> (ShufflePart(done) /\ IotaPart(done))
 Spec == Init /\ [][Next]_done
 =============================================================================
